@@ -280,5 +280,29 @@ where
         }
     }
 }
+
+pub struct Treap<T> {
+    pub root: Option<Box<TreapNode<T>>>,
+}
+impl<T> Treap<T>
+where
+    T: TreapItem,
+{
+    pub fn first(&mut self) -> (res: Option<&T>)
+        requires owf(old(self).root),
+        ensures
+            match res { Some(t) => oelems(old(self).root).len() > 0 && t.own() == oelems(old(self).root)[0], None => oelems(old(self).root).len() == 0 },
+    {
+        let mut node = self.root.as_mut()?;
+        while node.left.is_some()
+            invariant nwf(**node), nelems(**node).len() > 0, nelems(**node)[0] == oelems(old(self).root)[0],
+            decreases nelems(**node).len(),
+        {
+            node.push();
+            node = node.left.as_mut().unwrap();
+        }
+        Some(&node.item)
+    }
+}
 } // verus!
 fn main() {}
